@@ -15,12 +15,22 @@ import vlib
 LEVEL = "model_checking"
 
 
-def gen(R, maxval, maxsrc, valtoks, srctoks, name):
+# three-level chains: a -> b (last word of a's value), b -> two words ending in c or w, c an alias too; with / without trailing blanks
+TABLES3 = ('{[n \\in {"a", "b", "c"} |-> CASE n = "a" -> va [] n = "b" -> vb [] OTHER -> vc] : '
+           'va \\in [val : {<<"b">>, <<"w", "b">>}, blank : BOOLEAN], '
+           'vb \\in [val : {<<"c">>, <<"w">>, <<"w", "c">>, <<"c", "w">>, <<"c", "c">>, <<"w", "w">>}, blank : BOOLEAN], '
+           'vc \\in [val : {<<"w">>, <<"a">>}, blank : BOOLEAN]}')
+
+
+def gen(R, maxval, maxsrc, valtoks, srctoks, name, tables=None):
     def seq(xs):
         return "<<" + ", ".join('"' + x.replace("\\", "\\\\").replace('"', '\\"') + '"' for x in xs) + ">>"
     defs = "MCValToks == %s\nMCSrcToks == %s\n" % (seq(valtoks), seq(srctoks))
-    cfg = ('INIT Init\nNEXT Next\nINVARIANTS Bounded NoSelfExpansion Emit\nCONSTANTS\n Names = {"a", "b"}\n ValToks <- MCValToks\n'
-           ' SrcToks <- MCSrcToks\n MaxVal = %d\n MaxSrc = %d\n Bound = 60\n' % (maxval, maxsrc))
+    cfg = ('INIT Init\nNEXT Next\nINVARIANTS Bounded NoSelfExpansion Emit\nCONSTANTS\n Names = {"a", "b"%s}\n ValToks <- MCValToks\n'
+           ' SrcToks <- MCSrcToks\n MaxVal = %d\n MaxSrc = %d\n Bound = 60\n' % (', "c"' if tables else "", maxval, maxsrc))
+    if tables:
+        defs += "MCTables == %s\n" % tables
+        cfg += " Tables <- MCTables\n"
     res = R.tlc("Alias", cfg, defs=defs, name=name, timeout=3000)
     if res.violated:
         raise vlib.MachineryError("Alias.tla: %s violated in the model (substitution does not terminate / self-expansion)" % res.violated)
@@ -68,7 +78,7 @@ def check(R, cases, name):
 
 def run(R):
     R.rule = ("cases = (alias table, source): every table over the names {a, b} with values of up to MaxVal tokens (with / without "
-              "trailing blank; self-reference, mutual recursion, cycles through blank-terminated values) x every source of up to "
+              "trailing blank; self-reference, mutual recursion, cycles through blank-terminated values), and three-level chains over {a, b, c}, x every source of up to "
               "MaxSrc tokens over names, plain / quoted / assignment words, reserved words and operators; distinct_nontrivial = "
               "distinct cases in which at least one substitution took place")
     R.assumptions = ["token-level model: sources and values are blank-separated tokens; alias names are plain words",
@@ -76,10 +86,12 @@ def run(R):
     if R.tier == "quick":
         cases = gen(R, 2, 2, ["a", "b", "w"], ["a", "b", "w", "'a'", "x=1", ";"], "alias1")
         cases += gen(R, 1, 3, ["a", "b", "w"], ["a", "b", "w", "'a'", "x=1", ";"], "alias1b")
-        cases += gen(R, 1, 3, ["a", "b", ";", "x=1", "if"], ["a", "b", "w", "|", "!", "if", "then", "fi", ";"], "alias2")
+        cases += gen(R, 1, 3, ["a", "b", ";", "x=1", "if", "!"], ["a", "b", "w", "|", "!", "if", "then", "fi", ";"], "alias2")
+        cases += gen(R, 2, 3, ["a", "b", "c", "w"], ["a", "c", "w", ";"], "alias3", tables=TABLES3)
     else:
         cases = gen(R, 2, 3, ["a", "b", "w"], ["a", "b", "w", "'a'", "x=1", ";"], "alias1")
-        cases += gen(R, 2, 3, ["a", "b", ";", "x=1", "if"], ["a", "b", "w", "|", "!", "if", "then", "fi", ";"], "alias2")
+        cases += gen(R, 2, 3, ["a", "b", ";", "x=1", "if", "!"], ["a", "b", "w", "|", "!", "if", "then", "fi", ";"], "alias2")
+        cases += gen(R, 2, 4, ["a", "b", "c", "w"], ["a", "c", "w", ";"], "alias3", tables=TABLES3)
     recs = check(R, cases, "al")
     R.evaluations = len(recs) * 2
     R.traces = len(recs)
